@@ -152,9 +152,9 @@ class BackendVSA(Backend):
                 )
             raise ClaripyVSAError("Cannot abstract ValueSet with multiple regions")
         if isinstance(e, BoolResult):
-            if e.is_true:
+            if BoolResult.is_true(e):
                 return claripy.BoolV(True)
-            if e.is_false:
+            if BoolResult.is_false(e):
                 return claripy.BoolV(False)
             return claripy.BoolS("maybe")
         raise BackendError(f"Don't know how to abstract {type(e)}")
